@@ -74,6 +74,15 @@ Fixpoint spin_word (w : list string) : option m2 :=
               end
   end.
 
+(* Kronecker product of two 2x2 matrices as the row-major list of the 16 entries (row (r1,r2), column (c1,c2)) *)
+Definition m2_get (x : m2) (r c : bool) : gi :=
+  let '(a, b, c', d) := x in if r then (if c then d else c') else (if c then b else a).
+Definition kron2 (x y : m2) : list gi :=
+  flat_map (fun r1 => flat_map (fun r2 => flat_map (fun c1 => map (fun c2 => gi_mul (m2_get x r1 c1) (m2_get y r2 c2))
+     [false; true]) [false; true]) [false; true]) [false; true].
+Definition gl_add (u v : list gi) : list gi := map (fun p => gi_add (fst p) (snd p)) (combine u v).
+Definition gl_scale (s : gi) (u : list gi) : list gi := map (gi_mul s) u.
+
 Definition flat_m2 (x : m2) : list Z :=
   let '(a, b, c, d) := x in [fst a; snd a; fst b; snd b; fst c; snd c; fst d; snd d].
 
